@@ -92,6 +92,26 @@ def check_compile_folds(run, f, dirs, rule='R10.fold', only=None):
     """forward map = ascending product of layer forward maps; backward map = descending product of layer backward
     maps (or the inverse of the forward map).  acc.compose(x) appends, x.compose(acc) prepends."""
     n = 0
+    # in-place accumulation: self.X.transform_by(layer.X) transforms the accumulated rows by the layer map = append
+    for st, ctx in walk(f.node):
+        if isinstance(st, ast.Expr) and isinstance(st.value, ast.Call) and isinstance(st.value.func, ast.Attribute) \
+                and st.value.func.attr == 'transform_by' and ctx.loops and len(st.value.args) == 1:
+            recv, arg = norm(st.value.func.value), norm(st.value.args[0])
+            lp = ctx.loops[-1]
+            lv = lp.target.id if isinstance(lp, ast.For) and isinstance(lp.target, ast.Name) else None
+            for which in ('forward_map', 'backward_map'):
+                if only is not None and which != only:
+                    continue
+                if recv == 'self.' + which and arg == '%s.%s' % (lv, which):
+                    d = iter_direction(lp.iter, dirs)
+                    if d is None:
+                        run.undecided(rule, f, st, 'direction of the layer loop unknown')
+                        continue
+                    order = d          # append keeps the loop direction
+                    want = ASC if which == 'forward_map' else DESC
+                    n += 1
+                    run.check(order == want, rule, f, st, 'compiled %s is accumulated in place as the %s product of the layer maps, it must be the %s one '
+                              '((F1 F2)^-1 = F2^-1 F1^-1): transforming the accumulated map by each layer map appends it' % (which, order, want))
     for st, ctx in walk(f.node):
         if not (isinstance(st, ast.Assign) and isinstance(st.targets[0], ast.Attribute)
                 and st.targets[0].attr in ('forward_map', 'backward_map') and norm(st.targets[0].value) == 'self'):
@@ -134,6 +154,24 @@ def check_compile_folds(run, f, dirs, rule='R10.fold', only=None):
         run.check(order == want, rule, f, st,
                   'compiled %s is the %s product of the layer maps, it must be the %s one ((F1 F2)^-1 = F2^-1 F1^-1): '
                   '%s while iterating %s' % (which, order, want, mode, d))
+    return n
+
+
+def check_recompile(run, f, rule='R11.recompile'):
+    """compile() of a circuit recompiles EVERY (unitary) layer: layers are not frozen once compiled (take / compose let later gates
+    land in existing layers), so a layer map kept from an earlier compile may miss gates."""
+    n = 0
+    for st, ctx in walk(f.node):
+        if isinstance(st, ast.Expr) and isinstance(st.value, ast.Call) and isinstance(st.value.func, ast.Attribute) \
+                and st.value.func.attr == 'compile' and ctx.loops and isinstance(st.value.func.value, ast.Name):
+            lp = ctx.loops[-1]
+            if not (isinstance(lp, ast.For) and isinstance(lp.target, ast.Name) and lp.target.id == st.value.func.value.id):
+                continue
+            inner = [c for c in ctx.conds if getattr(c[0], 'lineno', 0) > lp.lineno]
+            bad = [norm(t) for t, pol in inner if 'MeasureLayer' not in norm(t)]
+            n += 1
+            run.check(not bad, rule, f, st, 'the layer is recompiled only under the condition %s: a layer compiled earlier that has taken gates since '
+                      'keeps a stale map' % bad)
     return n
 
 
